@@ -5304,6 +5304,14 @@ class PyCdlib:
                 # The file is no longer a boot file, so it must no longer be
                 # patched with a boot info table when it is written or read.
                 entry.inode.boot_info_table = None
+                if not new_list:
+                    # El Torito held the last reference to this data (a
+                    # 'hidden' boot file), so the data goes away as well.
+                    for index, ino in enumerate(self.inodes):
+                        if id(ino) == id(entry.inode):
+                            del self.inodes[index]
+                            num_bytes_to_remove += entry.inode.get_data_length()
+                            break
 
         num_bytes_to_remove += len(self.eltorito_boot_catalog.record())
 
